@@ -2,7 +2,7 @@
 C16 — logins need valid credentials; remote commands need a live session.
 Property theorems only; the model is `Model/Session.lean`.
 -/
-import PrimaiteModel.Lemmas.SessionCases
+import PrimaiteModel.Lemmas.SessionFuel
 import PrimaiteModel.Gen.Session
 namespace Primaite.Session
 
@@ -59,6 +59,19 @@ theorem C16_gen_terminal :
     Gen.Session.remoteCommandClearsLastResponse = true ∧
     Gen.Session.remoteCommandAnswersFailureWithoutResponse = true ∧
     Gen.Session.hostDropsFramesForClosedPorts = true := by decide
+
+/-- the direct requests of the session manager (`opUsmLogin`, `opUsmLogout`), `enable_user` (`opEnableUser`: no guard, not a
+request) and the zero-duration branches of `power_off` / `power_on` (`Node.powerOff`, `Node.powerOn`) are what the model says -/
+theorem C16_gen_direct_requests :
+    Gen.Session.usmLoginAnswersBool = true ∧ Gen.Session.usmLogoutHandler = true ∧
+    Gen.Session.logoutPopTolerant = true ∧ Gen.Session.logoutDisconnectsThenPops = true ∧
+    Gen.Session.userManagerRequests = ["add_user", "disable_user", "change_password"] ∧
+    Gen.Session.enableUserShape = true ∧
+    Gen.Session.powerOffZero = ["for: network_interface.disable()", "self._shut_down_actions()",
+      "self.operating_state = NodeOperatingState.OFF",
+      "if self.config.is_resetting: self.config.is_resetting = False; self.power_on()", "return True"] ∧
+    Gen.Session.powerOnZero = ["self.operating_state = NodeOperatingState.ON", "self._start_up_actions()",
+      "for: network_interface.enable()", "return True"] := by decide
 
 /-- the service verbs of the model carry the validators of `Service._init_request_manager` -/
 theorem C16_gen_service_verbs :
@@ -1448,5 +1461,60 @@ example : FreshIds demoNet := by
   | 0, hb => cases hb; exact ⟨fun s hs => (by simp at hs), (by decide)⟩
   | 1, hb => cases hb; exact ⟨fun s hs => (by simp at hs), (by decide)⟩
   | 2, hb => cases hb; exact ⟨fun s hs => (by simp at hs), (by decide)⟩
+
+/-! ### the fuel of the disconnect recursion always suffices -/
+
+/-- **C16, fuel (the recursion itself).** `Terminal._disconnect` and the "disconnect" messages it triggers form a recursion
+through the terminals and session managers of several nodes.  The model runs it with fuel `3·(number of terminal connections in
+the network) + 4`; in EVERY state (reachable or not) that is enough: the run ends without exhausting the fuel, and never adds a
+connection.  (Every `_disconnect` that goes on has first removed a connection.) -/
+theorem C16_fuel_disconnect (n : Net) (i cid : Nat) :
+    (disconnect n.fuel n i cid).stuck = n.stuck ∧ (disconnect n.fuel n i cid).totalConns ≤ n.totalConns :=
+  chain_ok n.fuel .disconnect n i cid (by simp only [need, Net.fuel]; omega)
+
+theorem exec_not_stuck (c : Cmd) (n : Net) (y : Nat) : (execCmd c n y).1.stuck = n.stuck := by
+  refine exec_induction' (fun n m => m.stuck = n.stuck) (fun _ => rfl) (fun _ _ _ h1 h2 => h2.trans h1) ?_
+    (fun n y cid => disconnect_not_stuck n y cid) (fun _ _ _ _ => rfl) (fun n y u p => localLogin_not_stuck n y u p)
+    (fun _ _ _ => rfl) c n y
+  intro c hc n y
+  cases c with
+  | localCmd u p c => cases hc
+  | remoteCmd z c => cases hc
+  | file k => rcases opFile_cases n y k with h | ⟨_, _, _, h⟩ <;> simp [execCmd, h]
+  | addUser u p adm => rcases opAddUser_cases n y u p adm with h | ⟨_, _, _, _, _, h⟩ <;> simp [execCmd, h]
+  | disableUser u => rcases opDisableUser_cases n y u with h | ⟨_, _, _, _, _, _, _, _, h⟩ <;> simp [execCmd, h]
+  | changePassword u o nw =>
+    rcases opChangePassword_cases n y u o nw with ⟨h, _⟩ | ⟨_, _, _, _, _, _, _, h, _⟩ <;> simp only [execCmd, h]
+    rw [logoutUser_not_stuck]; rfl
+  | remoteLogin z u p =>
+    rcases opRemoteLogin_cases n y z u p with ⟨h, _⟩ | ⟨_, _, _, _, _, _, _, _, ⟨h, _⟩ | ⟨h, _⟩⟩ <;>
+      simp [execCmd, h, afterLogin]
+  | remoteLogoff z =>
+    rcases opRemoteLogoff_cases n y z with h | ⟨_, _, _, _, _, h, _⟩ <;> simp only [execCmd, h]
+    exact disconnect_not_stuck _ _ _
+  | usmLogin u p peer =>
+    rcases opUsmLogin_cases n y u p peer with ⟨h, _⟩ | ⟨_, _, _, _, _, h, _⟩ <;> simp [execCmd, h]
+  | usmLogout i =>
+    rcases opUsmLogout_cases n y i with ⟨h, _⟩ | ⟨_, _, _, _, _, h⟩ <;> simp only [execCmd, h, upd_stuck]
+    exact disconnect_not_stuck _ _ _
+  | svc w v => rcases opSvc_cases n y w v with h | ⟨_, _, h⟩ <;> simp [execCmd, h]
+  | shutdown => rcases opShutdown_cases n y with h | ⟨_, _, h⟩ <;> simp [execCmd, h]
+  | startup => rcases opStartup_cases n y with h | ⟨_, _, h⟩ <;> simp [execCmd, h]
+  | reset => rcases opReset_cases n y with h | ⟨_, _, h⟩ <;> simp [execCmd, h]
+
+/-- **C16, fuel (every operation).** No operation — password change with its forced logouts, logoff, rejected command, direct
+logout, nested commands — ever exhausts the fuel: the `stuck` flag of the model is never set, from any state. -/
+theorem C16_fuel_suffices (n : Net) (op : Op) : (step n op).1.stuck = n.stuck := by
+  cases op with
+  | req y c => exact exec_not_stuck c n y
+  | enableUser y u => rcases opEnableUser_cases n y u with h | h <;> simp [step, h]
+  | localLogin y u p => simp only [step]; rw [opLocalLogin_fst]; exact localLogin_not_stuck n y u p
+  | localLogout y => rcases opLocalLogout_cases n y with h | h <;> simp [step, h]
+  | tick => exact tick_not_stuck n
+
+theorem C16_fuel_suffices_run (ops : List Op) (n : Net) : (run n ops).stuck = n.stuck := by
+  induction ops generalizing n with
+  | nil => rfl
+  | cons op ops ih => exact (ih _).trans (C16_fuel_suffices n op)
 
 end Primaite.Session
